@@ -129,7 +129,7 @@ CLAIMED = {
              "the related stored rows, are mutually inverse, return each row once and commute with the featuretype filter; the "
              "relations step is exact on EVERY stored state (C02_relations_step_exact: what update() adds at level 2 are exactly "
              "the compositions of two level-1 rows - true since the repair of F22, which the two-batch correspondence found), and over "
-             "EVERY history create_db, update, update, ... under the non-deleting strategies the level-2 rows are exactly those "
+             "EVERY history create_db, update, update, ... under any of the five strategies the level-2 rows are exactly those "
              "compositions (C02_history_closed: nothing deeper, nothing missing, also for grandparents arriving later). The "
              "model (Model/Import.v incl. the temp-file text round trip of ids, Model/Query.v) is tied to create.py/interface.py "
              "by importing ~900 generated graphs per quick run (all line orders for small graphs in the thorough tier) and "
@@ -163,14 +163,18 @@ CLAIMED = {
         text="Coq theorems (Properties/C05.v, 11 statements, closed under the global context) about the model of the "
              "IntegrityError dispatch and _do_merge, for an arbitrary database state, newcomer, id_spec and force_merge_fields: "
              "'error' aborts; 'warning' leaves features, relations and duplicates untouched; 'replace' puts the newcomer at the "
-             "old row's position, keeps every other row, drops the old level-1 parent links and files the new ones; "
+             "old row's position, keeps every other row, drops the old level-1 parent links and the level-2 rows derived from them "
+             "(those ending at the replaced feature or running through it) and files the new ones; "
              "'create_unique' appends under a fresh <key>_n (= <key>_(counter+1) when that number is free) leaving all rows "
              "intact; 'merge' either appends under a fresh key recorded in duplicates, or updates exactly one candidate in "
              "place whose attribute values per key are exactly the duplicate-free union of the newcomer's and the candidates' "
              "values, with exempt columns the comma-joined sorted set; the newcomer's Parent links always go to the key it was "
              "stored under. Tied to create.py by exhaustive arrival sequences of length <= 3 (thorough: 4) over a 6-feature "
-             "alphabet x 5 strategies plus 1.5k random sequences x force_merge_fields subsets, comparing features (values as "
-             "sets for merge), relations, duplicates and counters inside Coq.",
+             "alphabet x 5 strategies plus 1.5k random sequences x force_merge_fields subsets, a share of them split into a "
+             "create_db batch and an update() batch, plus three-level chains whose members arrive again through update(), "
+             "comparing features (values as sets for merge), relations, duplicates and counters inside Coq - and, independently "
+             "of the model, requiring the relations table to be the closure of the stored rows' own Parent attributes (no link "
+             "lost or invented).",
         note="Trusted: Coq kernel + vm_compute; Model/Import.v hand-written, tied by the correspondence. Python's list(set(v)) "
              "order is unspecified: the model keeps merged values sorted and the comparison is on sets. That at most one merge "
              "candidate agrees with a newcomer on the compared columns is a theorem (C05_merge_candidates_distinct: invariant of "
